@@ -131,7 +131,7 @@ theorem evalWith_multisig (env : VerifyEnv) (sv : SigVersion) (hsv : sv = .BASE 
   let cx := evalCtx env sv (msScript sigs.length keys)
   have hcsv : cx.sigversion = .BASE ∨ cx.sigversion = .WITNESS_V0 := hsv
   have hloop : multisigLoop cx cx.script (keys.length + sigs.length + 1) sigs.reverse keys.reverse = .ok true :=
-    multisigLoop_aligned cx cx.script keys.reverse sigs.reverse _ hal.reverse
+    multisigLoop_aligned cx cx.script keys.reverse sigs.reverse _ (by simp; omega) hal.reverse
       (fun s hs => henc s (by simpa using hs))
       (fun x hx => checkPubKeyEncoding_compressed _ _ x (hkeys x (by simpa using hx)))
       (fun s hs x hx => htot s (by simpa using hs) x (by simpa using hx))
